@@ -146,6 +146,8 @@ def search(chk, broken):
     n = 3 if (chk.tier == 'quick' and not broken) else 25
     evals = 0
     for d in DIMS:
+        if chk.over():
+            break
         for u in ubd[d]:
             for v in ubd[d]:
                 for x in magnitudes(chk.rng, d, u.name, n):
@@ -196,6 +198,8 @@ def search(chk, broken):
                                                     {'op': 'transitive', 'units': [u.name, v.name, w.name], 'x': x, 'observed': a, 'expected': b}))
     # foreign units must raise a conversion error
     for d in DIMS:
+        if chk.over():
+            break
         for u in pbc.Unit:
             if u in ubd[d]:
                 continue
